@@ -70,6 +70,36 @@ def _line_addr(line):
     m = re.match(r'^[ bcgistuw*](\$[0-9A-Fa-f]{4}|[ 0-9]{4}[0-9])[ \t]', line)
     return _addr(m.group(1)) if m else None
 
+def _group_end(lines, ad):
+    """Address of the first statement after the brace-delimited comment group that starts at address ad (None if there is
+    no such group or nothing follows it)."""
+    k = next((i for i, l in enumerate(lines) if _line_addr(l) == ad), None)
+    if k is None:
+        return None
+    first = lines[k].partition(' ; ')[2]
+    if not first.lstrip().startswith('{'):
+        return None
+    depth_closed = False
+    j = k
+    while j < len(lines):
+        l = lines[j]
+        if l.startswith('@'):
+            j += 1               # ASM directives between statements
+            continue
+        if j > k and not l.strip():
+            return None
+        if j > k and _line_addr(l) is None and not l.lstrip().startswith(';'):
+            return None
+        if depth_closed and _line_addr(l) is not None:
+            return _line_addr(l)
+        text = l.partition(' ; ')[2] if _line_addr(l) is not None else l.lstrip()[1:]
+        if not depth_closed and text.rstrip().endswith('}'):
+            depth_closed = True
+        elif depth_closed and _line_addr(l) is None:
+            return None          # a comment line (mid-block comment) follows the group: it has a directive of its own
+        j += 1
+    return None
+
 def classify(skool0, skool1, ctl1, keep):
     """Known-finding mechanisms of skool2ctl around 'M' (mixed statement types under one comment) groups."""
     i, a, b = first_diff(skool0, skool1)
@@ -102,7 +132,9 @@ def classify(skool0, skool1, ctl1, keep):
         else:
             direct.add(ad)
     for ad, ln, text, cont in ms:
-        if ln is not None and ad <= daddr and (ad + ln) not in direct:
+        if ln is not None and ad <= daddr and (ad + ln) not in direct and _group_end(lines0, ad) == ad + ln:
+            # the M directive itself is right (it spans exactly the statements under the one comment in the file it was
+            # written from); what is missing is a directive at its end address
             return 'C03-m-group-end-not-marked'
         if keep and not text and not cont and ad <= daddr <= ad + (ln or 1 << 16):
             return 'C03-blank-m-comment-lost-with-k'
